@@ -200,6 +200,215 @@ def _eval_label_function(r: Resolver, g: FuncInfo, var: str, form: str, enum: Cl
     return None
 
 
+# ---- concrete fallback: fold the normalisation over the finite label domain with Python's own str methods ----
+class _Unknown(Exception):
+    pass
+
+
+class _Mem:
+    """an enumeration member as a symbolic constant"""
+    def __init__(self, enum: ClassInfo, name: str, value):
+        self.enum, self.name, self.value = enum, name, value
+
+    def __eq__(self, o):
+        return isinstance(o, _Mem) and o.name == self.name and o.enum is self.enum
+
+    def __hash__(self):
+        return hash(self.name)
+
+
+_STR_METHODS = {"split", "rsplit", "join", "title", "strip", "lstrip", "rstrip", "lower", "upper", "casefold", "capitalize", "replace", "swapcase",
+                "removeprefix", "removesuffix", "partition", "rpartition", "startswith", "endswith", "format", "zfill", "center", "ljust", "rjust",
+                "expandtabs", "translate", "isspace", "isalpha"}
+
+
+def _conc(r: Resolver, fi: FuncInfo, e: ast.AST, env: Dict[str, object], enum: ClassInfo, depth: int = 0):
+    """value of an expression over concrete labels (str constants / symbolic members); raises _Unknown outside the fragment"""
+    if isinstance(e, ast.Constant):
+        return e.value
+    if isinstance(e, ast.Name):
+        if e.id in env:
+            return env[e.id]
+        raise _Unknown(e.id)
+    if isinstance(e, ast.Attribute):
+        if isinstance(e.value, (ast.Name, ast.Attribute)):
+            b = r.resolve_static(fi, fi.module, e) if not (isinstance(e.value, ast.Name) and e.value.id in env) else None
+            if b is not None and b.kind == "classattr" and b.target[0] is enum:
+                return _Mem(enum, b.target[1], enum_members(enum).get(b.target[1]))
+        base = _conc(r, fi, e.value, env, enum, depth)
+        if isinstance(base, _Mem) and e.attr == "value":
+            return base.value
+        if isinstance(base, _Mem) and e.attr == "name":
+            return base.name
+        raise _Unknown(ast.unparse(e))
+    if isinstance(e, ast.JoinedStr):
+        out = ""
+        for part in e.values:
+            v = _conc(r, fi, part.value if isinstance(part, ast.FormattedValue) else part, env, enum, depth)
+            out += v if isinstance(v, str) else _str_of(v)
+        return out
+    if isinstance(e, ast.IfExp):
+        return _conc(r, fi, e.body if _truth(_conc(r, fi, e.test, env, enum, depth)) else e.orelse, env, enum, depth)
+    if isinstance(e, ast.UnaryOp) and isinstance(e.op, ast.Not):
+        return not _truth(_conc(r, fi, e.operand, env, enum, depth))
+    if isinstance(e, ast.BoolOp):
+        val = None
+        for v in e.values:
+            val = _conc(r, fi, v, env, enum, depth)
+            if isinstance(e.op, ast.And) and not _truth(val):
+                return val
+            if isinstance(e.op, ast.Or) and _truth(val):
+                return val
+        return val
+    if isinstance(e, ast.Compare) and len(e.ops) == 1:
+        a, b = _conc(r, fi, e.left, env, enum, depth), _conc(r, fi, e.comparators[0], env, enum, depth)
+        op = e.ops[0]
+        eqv = (a == b) if not (isinstance(a, _Mem) != isinstance(b, _Mem)) else (enum_eq_text(r, enum) and (a.value if isinstance(a, _Mem) else a) == (b.value if isinstance(b, _Mem) else b))
+        if isinstance(op, (ast.Eq, ast.Is)):
+            return eqv
+        if isinstance(op, (ast.NotEq, ast.IsNot)):
+            return not eqv
+        if isinstance(op, ast.In) and isinstance(b, (list, tuple, set, str)) and not isinstance(a, _Mem):
+            return a in b
+        raise _Unknown(ast.unparse(e))
+    if isinstance(e, (ast.Tuple, ast.List)):
+        return [_conc(r, fi, x, env, enum, depth) for x in e.elts]
+    if isinstance(e, ast.Call):
+        fn = e.func
+        if isinstance(fn, ast.Name):
+            if fn.id == "getattr" and len(e.args) == 3 and isinstance(e.args[1], ast.Constant):
+                o = _conc(r, fi, e.args[0], env, enum, depth)
+                if isinstance(o, _Mem) and e.args[1].value in ("value", "name"):
+                    return o.value if e.args[1].value == "value" else o.name
+                if isinstance(o, str):
+                    return _conc(r, fi, e.args[2], env, enum, depth)
+                raise _Unknown("getattr")
+            if fn.id == "hasattr" and len(e.args) == 2 and isinstance(e.args[1], ast.Constant):
+                o = _conc(r, fi, e.args[0], env, enum, depth)
+                return isinstance(o, _Mem) and e.args[1].value in ("value", "name")
+            if fn.id == "isinstance" and len(e.args) == 2:
+                o = _conc(r, fi, e.args[0], env, enum, depth)
+                classes = e.args[1].elts if isinstance(e.args[1], ast.Tuple) else [e.args[1]]
+                for c in classes:
+                    if isinstance(c, ast.Name) and c.id == "str":
+                        if isinstance(o, str) or (isinstance(o, _Mem) and enum_eq_text(r, enum) and isinstance(o.value, str)):
+                            return True
+                        continue
+                    b = r.resolve_static(fi, fi.module, c) if isinstance(c, (ast.Name, ast.Attribute)) else None
+                    if b is not None and ((b.kind == "class" and b.target is enum) or (b.kind == "ext" and b.target.split(".")[-1] == "Enum")):
+                        if isinstance(o, _Mem):
+                            return True
+                        continue
+                    raise _Unknown("isinstance class")
+                return False
+            if fn.id == "str" and len(e.args) == 1:
+                return _str_of(_conc(r, fi, e.args[0], env, enum, depth))
+            b = r.resolve_static(fi, fi.module, fn)
+            if b is not None and b.kind == "class" and b.target is enum and len(e.args) == 1:
+                o = _conc(r, fi, e.args[0], env, enum, depth)
+                if isinstance(o, _Mem):
+                    return o
+                for m, v in enum_members(enum).items():
+                    if v == o:
+                        return _Mem(enum, m, v)
+                return ("raises", f"{enum.name}({o!r})")
+            if b is not None and b.kind == "func" and depth < 3:
+                g: FuncInfo = b.target
+                if not isinstance(g.node, ast.Lambda):
+                    args = [_conc(r, fi, a, env, enum, depth) for a in e.args]
+                    env2 = dict(zip(g.pos_params, args))
+                    for k in e.keywords:
+                        if k.arg:
+                            env2[k.arg] = _conc(r, fi, k.value, env, enum, depth)
+                    return _conc_block(r, g, g.node.body, env2, enum, depth + 1)
+            raise _Unknown(fn.id)
+        if isinstance(fn, ast.Attribute) and fn.attr in _STR_METHODS:
+            o = _conc(r, fi, fn.value, env, enum, depth)
+            if isinstance(o, str):
+                args = [_conc(r, fi, a, env, enum, depth) for a in e.args]
+                if any(isinstance(a, _Mem) for a in args) or e.keywords:
+                    raise _Unknown("str method args")
+                try:
+                    return getattr(o, fn.attr)(*args)
+                except Exception as ex:      # e.g. wrong argument type: the real code would raise as well
+                    return ("raises", repr(ex))
+            if isinstance(o, _Mem):
+                if enum_eq_text(r, enum) and isinstance(o.value, str):
+                    return getattr(o.value, fn.attr)(*[_conc(r, fi, a, env, enum, depth) for a in e.args])
+                return ("raises", f"member has no attribute {fn.attr}")
+        raise _Unknown(ast.unparse(fn))
+    raise _Unknown(type(e).__name__)
+
+
+def _str_of(v) -> str:
+    if isinstance(v, _Mem):
+        return f"{v.enum.name}.{v.name}"
+    if isinstance(v, (str, int, float, bool)) or v is None:
+        return str(v)
+    raise _Unknown("str()")
+
+
+def _truth(v) -> bool:
+    if isinstance(v, _Mem):
+        return True
+    if isinstance(v, tuple) and v and v[0] == "raises":
+        raise _Unknown("raises in test")
+    return bool(v)
+
+
+class _Ret(Exception):
+    def __init__(self, v):
+        self.v = v
+
+
+def _conc_block(r: Resolver, g: FuncInfo, stmts, env: Dict[str, object], enum: ClassInfo, depth: int):
+    """run a straight-line / if-else helper body concretely; returns the returned value"""
+    try:
+        _conc_stmts(r, g, stmts, env, enum, depth)
+    except _Ret as rt:
+        return rt.v
+    return None
+
+
+def _conc_stmts(r, g, stmts, env, enum, depth):
+    for st in stmts:
+        if isinstance(st, ast.Expr) and isinstance(st.value, ast.Constant):
+            continue
+        if isinstance(st, ast.Return):
+            raise _Ret(_conc(r, g, st.value, env, enum, depth) if st.value is not None else None)
+        if isinstance(st, ast.Assign) and len(st.targets) == 1 and isinstance(st.targets[0], ast.Name):
+            env[st.targets[0].id] = _conc(r, g, st.value, env, enum, depth)
+            continue
+        if isinstance(st, ast.If):
+            c = _truth(_conc(r, g, st.test, env, enum, depth))
+            _conc_stmts(r, g, st.body if c else st.orelse, env, enum, depth)
+            continue
+        if isinstance(st, ast.Raise):
+            raise _Ret(("raises", ast.unparse(st)[:60]))
+        raise _Unknown(type(st).__name__)
+
+
+def _concrete_normalisation(r: Resolver, fi: FuncInfo, chain: _Chain):
+    """{(member, incoming form): value at the chain}; value is a _Mem, a str, or ('raises', why).  None if outside the fragment."""
+    out = {}
+    pre = [st for st in fi.node.body if st.lineno < chain.first_if.lineno]
+    for m, v in enum_members(chain.enum).items():
+        for form in ("member", "text"):
+            env: Dict[str, object] = {chain.param: _Mem(chain.enum, m, v) if form == "member" else v}
+            try:
+                for st in pre:
+                    if not any(isinstance(x, ast.Name) and x.id == chain.param and isinstance(x.ctx, ast.Store) for x in ast.walk(st)):
+                        continue
+                    try:
+                        _conc_stmts(r, fi, [st], env, chain.enum, 0)
+                    except _Ret:
+                        pass
+                out[(m, form)] = env[chain.param]
+            except _Unknown:
+                return None
+    return out
+
+
 def _normalisation(r: Resolver, fi: FuncInfo, chain: _Chain) -> Dict[str, str]:
     """Effect of the statements that precede the chain on the label parameter, per incoming form:
     {'member': form at the chain, 'text': form at the chain}.  Unknown assignment forms raise AnalysisError."""
@@ -257,7 +466,14 @@ def check_dispatch(ctx: CheckContext, p: Program, r: Resolver, rule: str = "DISP
             total += 1
             members = enum_members(ch.enum)
             eq_text = enum_eq_text(r, ch.enum)
-            mode = _normalisation(r, fi, ch)
+            concrete = None
+            try:
+                mode = _normalisation(r, fi, ch)
+            except AnalysisError:
+                concrete = _concrete_normalisation(r, fi, ch)
+                if concrete is None:
+                    raise
+                mode = {"member": "?", "text": "?"}
             dedicated = set()
             branch_accepts = []
             for test, ifn in ch.branches:
@@ -269,12 +485,24 @@ def check_dispatch(ctx: CheckContext, p: Program, r: Resolver, rule: str = "DISP
             for m in members:
                 for form in ("member", "text"):
                     eff_form = mode[form]
+                    eff_m = m
+                    note = ""
+                    if concrete is not None:
+                        cv = concrete[(m, form)]
+                        if isinstance(cv, _Mem):
+                            eff_form, eff_m = "member", cv.name
+                        elif isinstance(cv, str):
+                            eff_form = "text"
+                            eff_m = next((mm for mm, vv in members.items() if vv == cv), None)
+                            note = f"; it is normalised to {cv!r}" + ("" if eff_m == m else ", which is not its label")
+                        else:
+                            eff_form, eff_m, note = "none", None, f"; the normalisation raises ({cv[1] if isinstance(cv, tuple) else cv})"
                     reached = None
                     for i, acc in enumerate(branch_accepts):
                         if acc is None:
                             continue   # non-label test: cannot be decided, skip (treated as false for a label value)
                         for (f2, m2) in acc:
-                            if m2 == m and (f2 == eff_form or eq_text):
+                            if m2 == m and eff_m == m and (f2 == eff_form or eq_text):
                                 reached = i
                                 break
                         if reached is not None:
@@ -286,7 +514,7 @@ def check_dispatch(ctx: CheckContext, p: Program, r: Resolver, rule: str = "DISP
                     ok = reached is not None
                     ctx.ob(rule, key, f"{fi.module.relpath}:{ch.first_if.lineno}", ok,
                            "" if ok else f"label {ch.enum.name}.{m} given as {form} does not reach its own branch in {fi.name} "
-                                         f"(falls through to {'the else branch' if ch.has_else else 'no branch'})",
+                                         f"(falls through to {'the else branch' if ch.has_else else 'no branch'}){note}",
                            normalisation=f"member->{mode['member']}, text->{mode['text']}")
     # sibling coverage: dispatchers over the same enum must have a dedicated branch for the same members
     for enum, lst in per_enum.items():
